@@ -517,20 +517,36 @@ def r01h(ctx):
             r = ctor_target(model, mod, cls, c)
             if r is None:
                 continue
-            K = r[0]
-            b = bind_call(model, K, c)
-            params = set(model.parameters(K))
-            for p, v in sorted(b.args.items()):
-                name = _ident(v)
-                if name is None:
-                    continue
-                n += 1
-                if name != p and name in params:
-                    cid = f"{fq}->{K.name}:{p}<-{name}"
-                    if (fq, K.name, p, name) in R01H_EXCEPTIONS:
-                        ctx.exempt(cid, mod.loc(c), R01H_EXCEPTIONS[(fq, K.name, p, name)])
-                    else:
-                        ctx.bad(cid, mod.loc(c), f"`{ast.unparse(v)}` is passed as `{p}` of {K.name}, which has a parameter `{name}` of its own: the option ends up in the wrong slot")
+            targets = [r[0]]
+            if r[1] == "type(self)" and cls is not None:
+                # the call is executed for every class that inherits this method: bind it against each of their
+                # (possibly different) parameter lists
+                seen_params = {tuple(model.parameters(r[0]))}
+                for h in model.subclasses(cls, strict=True):
+                    pm = h.provider(fn.name)
+                    if pm is None or pm.node is not fn:
+                        continue
+                    try:
+                        hp = tuple(model.parameters(h))
+                    except AnalysisError:
+                        continue
+                    if hp not in seen_params:
+                        seen_params.add(hp)
+                        targets.append(h)
+            for K in targets:
+                b = bind_call(model, K, c)
+                params = set(model.parameters(K))
+                for p, v in sorted(b.args.items()):
+                    name = _ident(v)
+                    if name is None:
+                        continue
+                    n += 1
+                    if name != p and name in params:
+                        cid = f"{fq}->{K.name}:{p}<-{name}"
+                        if (fq, K.name, p, name) in R01H_EXCEPTIONS:
+                            ctx.exempt(cid, mod.loc(c), R01H_EXCEPTIONS[(fq, K.name, p, name)])
+                        else:
+                            ctx.bad(cid, mod.loc(c), f"`{ast.unparse(v)}` is passed as `{p}` of {K.name}" + (f" (the method is inherited by {K.name}, whose parameters are {model.parameters(K)})" if K is not r[0] else "") + f", which has a parameter `{name}` of its own: the value ends up in the wrong slot")
             k += 1
         # calls of functions / methods defined in the package
         for c in iter_body_nodes(fn):
